@@ -104,8 +104,10 @@ def generate(seed, prop):
         curves = [[curves[0][0]]]
     azimuths = CV.draw_azimuths(rng, n_az)
     world = {"kind": kind, "grid": grid, "azimuths": azimuths, "curves": curves,
+             "amp_scale": rng.choice([1.0] * 8 + [1e-9, 1e9, 2.0 ** -20, 3.7]),
              "meta": {"file name(s)": ["a.mseed"], "trim": [0.5, 10.25],
-                      "note": "sim", "deployed degrees from north": 12.5},
+                      "note": "sim", "deployed degrees from north": 12.5,
+                      "nested": {"a": [1, {"b": None}], "c": 1e-300}, "flag": True, "none": None, "unicode": "Å/µ"},
              "records": {"k": rng.randrange(1 << 30), "ns": rng.choice([400, 500, 640]),
                          "dt": rng.choice([0.01, 0.005, 0.02]),
                          "spike_p": rng.choice([0.0, 0.2, 0.5])}}
@@ -117,6 +119,8 @@ def generate(seed, prop):
          "max_value": 0.6, "manual": 0.0, "write_read": 0.0, "plot": 0.0, "query": 1.0}
     if rng.random() < 0.15:
         w["manual"] = 0.5
+    if prop == "C08" and n_az > 1:
+        w["update_member"] = 1.0
     if prop == "C06":
         w["fdwra"] = 5.0
     if prop == "C12":
@@ -204,6 +208,9 @@ def draw_op(rng, name, f, kind, curves, azimuths, fault_rate=0.0):
                           "y0": rng.choice([0.0, 1.2, 2.0, 3.0]), "y1": rng.choice([2.5, 4.0, 50.0])})
         return {"op": name, "boxes": boxes, "range": draw_range(rng, f),
                 "kwargs": rng.choice([None, {}]), "dfn": rng.choice(DISTS), "dmc": rng.choice(DISTS)}
+    if name == "update_member":
+        return {"op": name, "az": rng.randrange(len(curves)), "range": draw_range(rng, f),
+                "rtype": rng.choice(["tuple", "list"]), "kwargs": draw_kwargs(rng)}
     if name == "query":
         return {"op": name, "range": draw_range(rng, f), "kwargs": draw_kwargs(rng), "dist": rng.choice(DISTS)}
     if name == "write_read":
@@ -250,7 +257,8 @@ def build_world(world):
     st = State()
     st.kind = world["kind"]
     st.f = CV.gen_grid(world["grid"])
-    st.amps = [np.array([CV.gen_curve(st.f, s) for s in cs]) for cs in world["curves"]]
+    scale = float(world.get("amp_scale", 1.0))          # very small / very large but legal amplitudes
+    st.amps = [scale * np.array([CV.gen_curve(st.f, s) for s in cs]) for cs in world["curves"]]
     st.azimuths = list(world["azimuths"])
     st.meta0 = dict(world.get("meta") or {})
     st.objs = {}
@@ -269,6 +277,8 @@ def build_world(world):
         st.objs["curves"] = [H.HvsrCurve(st.f, a) for a in st.amps[0]]
     st.cur_range = (None, None)
     st.cur_kwargs = None
+    st.member = {}                   # azimuth index -> (range, kwargs) when a member was updated on its own
+    st.member_same = set()
     st.range_changed = True          # last op re-evaluated peaks under a new range
     st.records = None
     st.world = world
@@ -421,6 +431,13 @@ def apply_op(ctx, st, op, prop):
     H = hv()
     name = op["op"]
     info = {"exc": None}
+    st.member_same = set()
+    if name in ("update_peaks", "fdwra", "manual", "write_read"):
+        # the container fans the range out to every member again; a member that already holds this
+        # very range (set on its own earlier) may legitimately short-circuit
+        if "range" in op:
+            st.member_same = {a for a, (r_, k_) in st.member.items() if tuple(r_) == tuple(op["range"])}
+        st.member = {}
     if name == "update_peaks":
         r = tuple(op["range"]) if op["rtype"] == "tuple" else list(op["range"])
         for key, obj in st.objs.items():
@@ -515,6 +532,15 @@ def apply_op(ctx, st, op, prop):
         st.cur_range = tuple(op["range"])
         st.cur_kwargs = {} if op["kwargs"] is None else copy.deepcopy(op["kwargs"])
         ctx.state_changes += 1
+    elif name == "update_member":
+        if "az" in st.objs and op["az"] < len(st.objs["az"].hvsrs):
+            r = tuple(op["range"]) if op["rtype"] == "tuple" else list(op["range"])
+            st.objs["az"].hvsrs[op["az"]].update_peaks_bounded(search_range_in_hz=r,
+                                                              find_peaks_kwargs=copy.deepcopy(op["kwargs"]))
+            st.member[op["az"]] = (tuple(op["range"]), copy.deepcopy(op["kwargs"]))
+            ctx.probe("member_updated_alone")
+            ctx.state_changes += 1
+        st.range_changed = False
     elif name == "query":
         # read-only accessors, some with arguments of their own: none of them may change the state
         with warnings.catch_warnings():
@@ -589,7 +615,7 @@ def oracle_c08(ctx, st, op, info):
     f, R, K = st.f, st.cur_range, st.cur_kwargs
     plain = plain_kwargs(K)
 
-    def judge(label, v, rf, ra):
+    def judge(label, v, rf, ra, R=R, plain=plain):
         if plain:
             ok, name, detail = PK.judge_peak(f, v, R, rf, ra)
         else:
@@ -615,21 +641,25 @@ def oracle_c08(ctx, st, op, info):
 
     # every window of every traditional-like holder
     for label, h, amp in trads_of(st):
+        Rm, Km = R, K
+        if label.startswith("az") and int(label[2:]) in st.member:
+            Rm, Km = st.member[int(label[2:])]
+        plain_m = plain_kwargs(Km)
         vp = np.asarray(h.valid_peak_boolean_mask)
         pf, pa = np.asarray(h.peak_frequencies), np.asarray(h.peak_amplitudes)
         ctx.check(len(pf) == int(vp.sum()) and len(pa) == len(pf), "peak_vector_length",
                   f"{label}: peak_frequencies has {len(pf)} entries for {int(vp.sum())} valid peaks")
         k = 0
         for j in range(len(amp)):
-            cls = PK.classify(f, amp[j], R)
+            cls = PK.classify(f, amp[j], Rm)
             if vp[j]:
                 rf, ra = float(pf[k]), float(pa[k])
                 k += 1
                 if np.isnan(rf):
                     ctx.probe("peakless_window_flagged_valid")
                 if not np.isnan(rf):
-                    judge(f"{label}[{j}]", amp[j], rf, ra)
-            elif st.range_changed and plain:
+                    judge(f"{label}[{j}]", amp[j], rf, ra, R=Rm, plain=plain_m)
+            elif st.range_changed and plain and not (label.startswith("az") and int(label[2:]) in st.member_same):
                 # peaks were just re-evaluated under a new range: a window is
                 # peak-less only if the range really holds no local maximum
                 ctx.check(not cls["required"], "peak_missed",
@@ -679,7 +709,7 @@ def oracle_c08(ctx, st, op, info):
                         g = np.asarray(getattr(o, stat)(d), float)
                     except Exception as ex:            # noqa
                         g = ("raised", type(ex).__name__)
-                    ctx.check(_same(g, e), "absent_peak_enters_statistics",
+                    ctx.check(stat_same(stat + "(" + d + ")", g, e, F, Aa, np.zeros(0)), "absent_peak_enters_statistics",
                               lambda: f"{name}: a window without a peak is flagged as a valid peak (after {op['op']}) and "
                                       f"{stat}('{d}') = {g!r}, but over the windows that have a peak it is {e!r}",
                               key={"holder": name, "stat": stat, "after": op["op"]})
@@ -690,6 +720,14 @@ def oracle_c08(ctx, st, op, info):
         if name == "az":
             subs += [(f"az{a}.mean", h) for a, h in enumerate(obj.hvsrs)]
         for label, o in subs:
+            Rj = R
+            if st.member:
+                if label == "az":
+                    continue                    # members are out of step by the caller's own doing
+                if label.startswith("az") and label.endswith(".mean") and int(label[2:-5]) in st.member:
+                    Rj = st.member[int(label[2:-5])][0]
+                    if not plain_kwargs(st.member[int(label[2:-5])][1]):
+                        continue
             for dist in DISTS:
                 try:
                     with warnings.catch_warnings():
@@ -704,7 +742,7 @@ def oracle_c08(ctx, st, op, info):
                     mf, ma = o.mean_curve_peak(dist)
                 except ValueError:
                     mf, ma = np.nan, np.nan
-                judge(f"{label}.mean_curve_peak({dist})", mc, mf, ma)
+                judge(f"{label}.mean_curve_peak({dist})", mc, mf, ma, R=Rj)
 
 
 # ---- C05 ------------------------------------------------------------------
@@ -760,6 +798,36 @@ def alias_check(ctx, o, got, key):
                   key={**key, "stat": name.split("(")[0]})
 
 
+def stat_same(name, g, e, F, A, rows):
+    """Scale-aware comparison of a statistic with its expected value: rounding noise is judged
+    relative to the magnitude of the data the statistic is computed from (cancellation in a
+    standard deviation or covariance is proportional to that magnitude, not to the result)."""
+    if isinstance(g, tuple) or isinstance(e, tuple):
+        return isinstance(g, tuple) and isinstance(e, tuple) and g == e
+    with np.errstate(all="ignore"):
+        mf = float(np.nanmax(np.abs(F))) if len(F) else 1.0
+        ma = float(np.nanmax(np.abs(A))) if len(A) else 1.0
+        mr = float(np.nanmax(np.abs(rows))) if np.size(rows) else 1.0
+    if name.startswith("cov_fn"):
+        g, e = np.asarray(g, float), np.asarray(e, float)
+        if g.shape != (2, 2) or e.shape != (2, 2):
+            return False
+        lognormal = "lognormal" in name or "log-normal" in name
+        sf, sa = (1.0, 1.0) if lognormal else (mf, ma)
+        tol = 1e-9 * np.array([[sf * sf, sf * sa], [sf * sa, sa * sa]])
+        return bool(np.all(np.isnan(g) == np.isnan(e)) and
+                    np.all(np.abs(np.nan_to_num(g) - np.nan_to_num(e)) <= tol + 1e-9 * np.abs(np.nan_to_num(e))))
+    if "curve" in name:
+        scale = mr
+    elif "amplitude" in name:
+        scale = ma
+    else:
+        scale = mf
+    if ("std_" in name and "nth" not in name) and ("lognormal" in name or "log-normal" in name):
+        scale = 1.0                                   # log-space standard deviations are dimensionless
+    return close(g, e, STAT_RTOL, 1e-9 * scale)
+
+
 def _same(a, b, rtol=STAT_RTOL, atol=1e-12):
     if isinstance(a, tuple) or isinstance(b, tuple):
         return isinstance(a, tuple) and isinstance(b, tuple) and a == b
@@ -796,7 +864,7 @@ def oracle_c05(ctx, st, op, info):
                 exp[f"nth_std_curve({n},{d})"] = ST.nth(n, d, ST.mean(rows, d, axis=0), ST.std(rows, d, axis=0))
             for name, e in exp.items():
                 g = got[name]
-                ctx.check(_same(g, e), "estimator_mismatch",
+                ctx.check(stat_same(name, g, e, F, A, rows), "estimator_mismatch",
                           lambda: f"{name} = {g!r} but the textbook estimator over the accepted "
                                   f"windows {np.nonzero(W)[0].tolist()} / peaks {np.nonzero(Pe)[0].tolist()} gives {e!r}",
                           key={**key, "stat": name.split("(")[0]})
@@ -831,7 +899,7 @@ def oracle_c05(ctx, st, op, info):
                                 find_peaks_kwargs=copy.deepcopy(st.cur_kwargs))
         got3 = _accessors_trad(rb)
         for name in got:
-            ctx.check(_same(got[name], got3[name]), "differs_from_rebuilt",
+            ctx.check(stat_same(name, got[name], got3[name], F, A, rows), "differs_from_rebuilt",
                       lambda: f"{name} = {got[name]!r} but an object built from the accepted windows alone gives {got3[name]!r}",
                       key={**key, "stat": name.split("(")[0]})
         ctx.probe("c05_rebuilt")
@@ -887,7 +955,7 @@ def oracle_c11(ctx, st, op, info):
                           "weighted mean != average of per-azimuth means (model error)")
                 for name, e in exp.items():
                     g = got[name]
-                    ctx.check(_same(g, e), "weighted_estimator_mismatch",
+                    ctx.check(stat_same(name, g, e, F, Aa, np.zeros(0)), "weighted_estimator_mismatch",
                               lambda: f"{name} = {g!r} but the Cheng et al. (2020) estimator with w=1/(A*n_a), "
                                       f"n_a={[int(p.sum()) for p in Pe]} gives {e!r}",
                               key={**key, "stat": name.split("(")[0]})
@@ -913,7 +981,7 @@ def oracle_c11(ctx, st, op, info):
                     exp[f"nth_std_curve({n},{d})"] = ST.nth(n, d, exp[f"mean_curve({d})"], exp[f"std_curve({d})"])
                 for name, e in exp.items():
                     g = got[name]
-                    ctx.check(_same(g, e), "weighted_estimator_mismatch",
+                    ctx.check(stat_same(name, g, e, np.zeros(0), np.zeros(0), rows), "weighted_estimator_mismatch",
                               lambda: f"{name} differs from the weighted estimator with n_a={[int(x.sum()) for x in Ws]}: "
                                       f"got {g!r}, expected {e!r}", key={**key, "stat": name.split("(")[0]})
                 if len(set(int(x.sum()) for x in Ws)) == 1:
@@ -931,7 +999,7 @@ def oracle_c11(ctx, st, op, info):
         t.valid_peak_boolean_mask = np.array(Ps[0])
         gt = _accessors_trad(t)
         for name in got:
-            ctx.check(_same(got[name], gt[name]), "single_azimuth_reduction",
+            ctx.check(stat_same(name, got[name], gt[name], F, Aa, rows), "single_azimuth_reduction",
                       lambda: f"one azimuth: {name} = {got[name]!r} but the traditional object gives {gt[name]!r}",
                       key={**key, "stat": name.split("(")[0]})
         ctx.probe("c11_single_azimuth")
@@ -949,7 +1017,7 @@ def oracle_c11(ctx, st, op, info):
             t.valid_peak_boolean_mask = np.array(Ps[a])
         g2 = _accessors_az(tw)
         for name in got:
-            ctx.check(_same(got[name], g2[name]), "azimuth_order_dependence",
+            ctx.check(stat_same(name, got[name], g2[name], F, Aa, rows), "azimuth_order_dependence",
                       lambda: f"{name} changes from {got[name]!r} to {g2[name]!r} when the azimuths are reordered",
                       key={**key, "stat": name.split("(")[0]})
     # rejected rows never matter
@@ -970,7 +1038,7 @@ def oracle_c11(ctx, st, op, info):
         rb.update_peaks_bounded(search_range_in_hz=tuple(st.cur_range), find_peaks_kwargs=copy.deepcopy(st.cur_kwargs))
         g4 = _accessors_az(rb)
         for name in got:
-            ctx.check(_same(got[name], g4[name]), "differs_from_rebuilt",
+            ctx.check(stat_same(name, got[name], g4[name], F, Aa, rows), "differs_from_rebuilt",
                       lambda: f"{name} = {got[name]!r} but an object built from the accepted windows alone gives {g4[name]!r}",
                       key={**key, "stat": name.split("(")[0]})
         ctx.probe("c11_rebuilt")
